@@ -143,8 +143,9 @@ def write_inputs(d, name, recs, ids=None):
         open(p, "wb").write(data)
         paths[suffix[1:]] = p
         pz = p + ".gz"
-        with gzip.open(pz, "wb") as g:
-            g.write(data)
+        # two gzip members, the boundary inside a record (what bgzip, `cat a.gz b.gz` or `gzip -c >> f.gz` produce)
+        cut = (2 * len(data)) // 3 + 1
+        open(pz, "wb").write(gzip.compress(data[:cut]) + gzip.compress(data[cut:]))
         paths[suffix[1:] + ".gz"] = pz
     paths["fa_bytes"] = fa
     return paths
@@ -1572,6 +1573,43 @@ def c17(tier):
 
 # ------------------------------------------------------------------------------------------------ C03 / C04 observation points
 
+def c17_devices(tier):
+    """file identity across file systems (py/c17dev.py, run in a private mount namespace with two fresh tmpfs mounts):
+    the stale output on another file system with the input's inode number / another number / on the input's own"""
+    import json
+    import sys
+    rep = Rep()
+    wd = fresh_dir("c17dev")
+    how = None
+    if shutil.which("unshare"):
+        for cand in (["unshare", "-m"], ["unshare", "-rm"]):
+            if run(cand + ["true"], timeout=20)[0] == 0:
+                how = cand
+                break
+    if how is None:
+        rep.count("c17.device_cases", 0)
+        rep.note("no private mount namespace available: file identity across file systems was not explored")
+        return rep.done()
+    out = os.path.join(wd, "report.json")
+    rc, so, err, to = run(how + [sys.executable, os.path.join(fe.VERIF, "py", "c17dev.py"), fe.CLI, os.path.join(wd, "m"), out], timeout=900)
+    if rc != 0 or not os.path.exists(out):
+        raise fe.Machinery("c17dev.py failed (exit %s): %s" % (rc, err[-600:].decode("utf-8", "replace")))
+    r = json.load(open(out))
+    if r["skipped"]:
+        rep.note("file identity across file systems not explored: %s" % r["skipped"])
+    rep.ev(r["runs"], r["runs"])
+    rep.count("c17.device_cases", len(r["cases"]))
+    rep.count("c17.inode_coincidences_arranged", r["coincidences"])
+    for c in r["cases"]:
+        if "no coincidence" in c:
+            rep.note(c)
+    for v in r["violations"]:
+        rep.violation("depends-on-file-identity", 10, v["desc"], "c17_devices", {"kind": v["kind"], "relation": v["relation"]})
+    rep.sample("input on one tmpfs, the stale kmers.counts of an earlier `kmertools ctr` run on another tmpfs with the input's inode number: same table as into a fresh directory")
+    shutil.rmtree(wd, ignore_errors=True)
+    return rep.done()
+
+
 def _py_eval(code, timeout=300):
     import sys
     return run([sys.executable, "-c", code], timeout=timeout)
@@ -1630,16 +1668,26 @@ def c04_cli(tier):
     recs = [r for r in recs if r]  # FASTA records with at least one base (empty records are covered in C16)
     d = fresh_dir("c04")
     inp = os.path.join(d, "in.fa")
-    open(inp, "wb").write(fasta_bytes(recs))
-    jobs = [(k, counts, t) for k in (3, 4, 5) for counts in (0, 1) for t in (1, 16)]
+    text = fasta_bytes(recs)
+    open(inp, "wb").write(text)
+    # the container is part of the input of every file-level path: the same records as a gzip file with one member
+    # and as one with several members whose boundaries fall inside sequence lines, headers and between records
+    import gzip
+    cuts = [0, len(text) // 3 + 1, len(text) // 3 + 2, (2 * len(text)) // 3, len(text)]
+    inputs = {"plain": inp, "gz": os.path.join(d, "one.fa.gz"), "gz-members": os.path.join(d, "many.fa.gz")}
+    open(inputs["gz"], "wb").write(gzip.compress(text))
+    open(inputs["gz-members"], "wb").write(b"".join(gzip.compress(text[a:b]) for a, b in zip(cuts, cuts[1:])))
+    jobs = [(k, counts, t, "plain") for k in (3, 4, 5) for counts in (0, 1) for t in (1, 16)]
+    jobs += [(3, counts, t, c) for counts in (0, 1) for t in (1, 16) for c in ("gz", "gz-members")]
 
     def do(job):
-        k, counts, t = job
+        k, counts, t, container = job
+        inp = inputs[container]
         out = os.path.join(fresh_dir("c04o"), "o.txt")
         args = ["comp", "oligo", "-i", inp, "-o", out, "-k", str(k), "-t", str(t)] + (["-c"] if counts else [])
         rc, so, err, to = cli(args, timeout=120)
         rows = lines_of(read(out))
-        a = {"k": k, "counts": counts, "t": t}
+        a = {"k": k, "counts": counts, "t": t, "container": container}
         rep.ev(1, 0)
         if rc != 0 or rows is None or len(rows) != len(recs):
             rep.violation("run-failed", k, "kmertools %s: exit %s, %s rows for %d records" % (" ".join(args), rc, None if rows is None else len(rows), len(recs)), "c04_cli", a)
